@@ -50,6 +50,12 @@ def gen_facts():
 # ------------------------------------------------------------------------------------------ (a) cbstore
 def cb_scenarios(rng, tier, cap):
     S = []
+    # the recorded witnesses of the two stalls first: on the code as it was they must stall (known findings), on a repaired
+    # store they must give the recorded repaired answers
+    for f in sorted(glob.glob(os.path.join(core.VERIF, "corpus", ID, "*.json"))):
+        c = json.load(open(f))
+        if c.get("engine") == "cbstore":
+            S.append({"name": "corpus:" + os.path.basename(f), "ops": c["ops"], "expect": c.get("signature"), "repaired": c.get("repaired", {})})
     # the stall witness: one consumer whose callback never returns, cap+2 Puts, then RemoveCallback
     # (`adds` = registered by a stream handler: AddStreamCallback where the tree has it; `add` = a callback of the node itself)
     S.append({"name": "stall", "ops": ["init", "adds c gate", "add d fast"] + ["put"] * (cap + 2) +
@@ -416,11 +422,24 @@ def explore(ctx, res):
                                "note": f"callbackStore model (variant blocking={facts['blocking']} ends={facts['ends']}, read off the source) no longer matches the implementation"}, found=False)
             return finish(res, total, nontriv, dist, samples, validated)
         validated += 1
+        if s.get("expect"):
+            if facts["ends"]:
+                # a repaired tree: the witness must not stall any more and must answer as recorded
+                bad = [f"`{op}` answered {o[:60]}" for op, o in zip(s["ops"], outs) if o.startswith(("blocked", "still-blocked"))]
+                bad += [f"`{op}` answered {o[:40]}…{o[-20:]}, recorded repaired answer {want[:40]}…{want[-20:]}" for op, want in s["repaired"].items()
+                        for o in [o2 for op2, o2 in zip(s["ops"], outs) if op2 == op][-1:] if o != want]
+                if bad or Dv:
+                    res.add_violation({"engine": "cbstore", "kind": "impl-violates", "scenario": s["name"], "ops": compress(s["ops"]), "observed": compress(outs),
+                                       "oracle": "go2lean recognised the repaired callbackStore, but the recorded stall witness does not give the repaired answers: " + "; ".join(bad + [d[1] for d in Dv])[:600]})
+                    return finish(res, total, nontriv, dist, samples, validated)
+                count("cbstore", "witness-repaired:" + s["name"])
+            elif not any(sig == s["expect"] for sig, _ in Dv):
+                count("deviations", "witness-no-longer-fails:" + s["expect"])
         for sig, what in Dv:
             count("deviations", sig)
             if s["name"] in ("stall", "stall-add"):
                 stall_seen = True
-            if sig == SIG_STALL and s["name"] in ("stall", "overflow-reconnect"):
+            if sig == SIG_STALL and s["name"] in ("stall", "overflow-reconnect", "corpus:stall_put.json"):
                 stall_witness = True
             res.report(sig, {"engine": "cbstore", "kind": "impl-violates", "scenario": s["name"], "ops": compress(s["ops"]), "observed": compress(outs), "oracle": what})
             if res.violations:
